@@ -382,6 +382,7 @@ class StoreSim(core.Engine):
         raise core.HarnessError(f'unknown op {kind}')
 
     # -- run ---------------------------------------------------------------
+    @core.stuck_guard
     def _execute(self, trace: dict, prop: str, rng: Optional[random.Random], n_ops: int) -> core.RunResult:
         global _MODEL_TOKENS
         lf = trace['knobs']['load_factor']
